@@ -788,6 +788,27 @@ def chain_above_dup_dataset(rng, depth=None):
     D.meta = dict(singletons=0, undeclared_species=0, int_ids=False, chain_above_dup=d)
     return D
 
+def redundant_wrappers(rng, groups, prob=0.5):
+    """wrap some nested, labelled orthologGroups (whose XML parent is an orthologGroup) into one more group carrying the SAME
+    TaxRange label plus annotations of its own -- a producer working on a tree with an extra unary level writes such
+    wrappers.  The loader dissolves them (children in one genome, TaxRange = that genome); the inner group's HOG keeps its
+    own annotations and must not answer the wrapper's."""
+    n = [0]
+    def rec(e, parent_is_og, top):
+        if e[0] == 'og':
+            items = [rec(x, True, False) for x in e[3]]
+            new = ('og', e[1], e[2], items)
+            lab = [x[2] for x in e[3] if x[0] == 'prop' and x[1] == 'TaxRange']
+            if not top and parent_is_og and lab and rng.random() < prob:
+                n[0] += 1
+                return ('og', 'WRAP%d' % n[0], None, [('prop', 'TaxRange', lab[0]), ('prop', 'WrapNote', 'w%d' % n[0]), ('score', 'TreeCertainty', '0.125'), new])
+            return new
+        if e[0] == 'pg':
+            return ('pg', e[1], [rec(x, False, False) for x in e[2]])
+        return e
+    out = [rec(g, False, True) for g in groups]
+    return out, n[0]
+
 def wild_dataset(rng, maxleaves=7):
     """a file that is NOT the encoding of a history: groups built clade by clade but with members, sub-groups and
     paralogGroups taken from anywhere below the clade (several levels skipped, several paralogGroups at one elided
